@@ -23,6 +23,7 @@ fn main() {
                 "C12" => suites::c12::gen(tier, seed, &mut emit),
                 "C15" => suites::c15::gen(tier, seed, &mut emit),
                 "C04" => suites::c04::gen(tier, seed, &mut emit),
+                "C08" => suites::c08::gen(tier, seed, &mut emit),
                 "C16" => suites::c16::gen(tier, seed, &mut emit),
                 "C17" => suites::c17::gen(tier, seed, &mut emit),
                 "SMOKE" => suites::streams::gen_smoke(tier, seed, &mut emit),
